@@ -22,7 +22,7 @@ RULES = {
 }
 CONTROL_REV = '078b142'  # thorough tier: the rules must still report the defects found (and since fixed) on the original tree
 CONTROLS = [('C17.R2', 'partial_hard_shrink')]
-FLOORS = {'C17.R7': 7, 'C17.R6': 4, 'C17.R5': 4, 'C17.R1': 6, 'C17.R2': 6, 'C17.R3': 4, 'C17.R4': 4}
+FLOORS = {'C17.R7': 7, 'C17.R6': 4, 'C17.R5': 4, 'C17.R1': 6, 'C17.R2': 6, 'C17.R3': 6, 'C17.R4': 4}
 EXPLANATION = ('The generator code is straight-line; its tree (decisions s·x_row <= t, leaves (slope, offset)) is reconstructed from the from_aff/add_child_node calls and the point '
                'writes on the affine forms, and interpreted over the finite set of order types of x_row relative to the thresholds under the generator\'s own assertions.')
 DOES_NOT_DECIDE = 'values of the chain generators for all dims beyond the label discipline; numeric content'
@@ -250,6 +250,9 @@ def run(ctx):
     prune.check_interval_guard(ctx, 'C17.R7', 'partial_hard_tanh', 'min_val', 'max_val')
     prune.check_index_guards(ctx, 'C17.R7', ['partial_ReLU', 'partial_leaky_ReLU', 'partial_hard_tanh', 'partial_hard_shrink', 'partial_hard_sigmoid', 'partial_threshold', 'class_characterization'], min_dim={'class_characterization': 2})
     helpers.share_from(ctx, 'c09', 'C17.R6', ['AffTree::evaluate_decision#', 'AffTree::index_from_label#', 'AffTree::find_terminal#', 'AffTree::evaluate#'])
+    # from_poly: the outside function it attaches is one of the right input dimension (same instances as C04.R2)
+    from .c04 import from_poly_attached_dims
+    from_poly_attached_dims(ctx, 'C17.R3')
     F = ctx.facts
     for gen, spec in TEXTBOOK.items():
         b = ctx.body('C17.R2', gen)
